@@ -49,11 +49,12 @@ impl SaveDir {
         ))))
     }
 
+    /// Finalises the save directory, if any. Returns whether linking should be skipped.
     pub(crate) fn finish(
         &self,
         input_data: &FileLoader,
         parsed_args: &impl platform::Args,
-    ) -> Result {
+    ) -> Result<bool> {
         if let Some(state) = self.0.as_ref() {
             let mut files_to_copy = state.files_to_copy.clone();
             files_to_copy.extend(
@@ -62,9 +63,9 @@ impl SaveDir {
                     .iter()
                     .map(|file| file.filename.clone()),
             );
-            state.finish(files_to_copy.iter(), parsed_args)?;
+            return state.finish(files_to_copy.iter(), parsed_args);
         }
-        Ok(())
+        Ok(false)
     }
 
     pub(crate) fn handle_file(&mut self, arg: &str) {
@@ -131,14 +132,15 @@ impl SaveDirState {
         }
     }
 
-    /// Finalise the save directory. Makes sure that all `filenames` have been copied, writes the
-    /// `run-with` file and if the environment variable is set to indicate that we should skip
-    /// linking, then exit.
+    /// Finalise the save directory. Makes sure that all `filenames` have been copied and writes the
+    /// `run-with` file. Returns true if the environment variable is set to indicate that we should
+    /// skip linking. We leave it to our caller to stop, rather than exiting here, so that resources
+    /// such as jobserver tokens get released.
     fn finish<'a, I: Iterator<Item = &'a PathBuf>>(
         &self,
         filenames: I,
         parsed_args: &impl platform::Args,
-    ) -> Result {
+    ) -> Result<bool> {
         for filename in filenames {
             self.copy_file(&std::path::absolute(filename)?, parsed_args)?;
         }
@@ -147,10 +149,7 @@ impl SaveDirState {
         self.write_args_file(&run_with_file, parsed_args)
             .with_context(|| format!("Failed to write `{}`", run_with_file.display()))?;
 
-        if std::env::var(SKIP_LINKING_ENV).is_ok() {
-            std::process::exit(0);
-        }
-        Ok(())
+        Ok(std::env::var(SKIP_LINKING_ENV).is_ok())
     }
 
     fn write_args_file(&self, run_file: &Path, args: &impl platform::Args) -> Result {
